@@ -299,7 +299,7 @@ def coq_obs(ob):
         if e[0] == "rec":
             evs.append("(ERec %s %s)" % (cn(e[1]), cn(e[2])))
         else:
-            _, tk, t, c, r, acts, el, rc = e
+            _, tk, t, c, r, acts, el, rc = e[:8]
             evs.append("(@ESend FOps %s %s %s %s %s %s %s)" % (
                 cn(tk), cn(t), CTLN[c], "None" if r is None else "(Some %s)" % STATN[r],
                 clist([cn(a) for a in acts], "nat"), "(%s)%%float" % el, cz(rc)))
@@ -342,8 +342,10 @@ class RunnerProxy(object):
     def _log(self, ctl, status):
         t = self.tasker
         acts = [self.rec.fid[(t.name, f.name)] for f in getattr(t, "actives", [])]
+        act = getattr(t, "active", None)
         self.rec.trace.append(["send", self.rec.tick, self.tid, ctl, status, acts,
-                               float(getattr(t, "elapsed", 0.0)).hex(), int(getattr(t, "recurred", 0))])
+                               float(getattr(t, "elapsed", 0.0)).hex(), int(getattr(t, "recurred", 0)),
+                               None if act is None else self.rec.fid[(t.name, act.name)]])
 
     def send(self, ctl):
         try:
@@ -436,6 +438,8 @@ def run_impl(prog, crash_at, workdir, name="prog", limit_s=20, maxticks=60):
         try:
             sk.run()
         except Crash:
+            excn = True
+        except KeyboardInterrupt:     # delivered inside the final sweep: it leaves run()
             excn = True
         except Hang:
             raise
@@ -629,7 +633,9 @@ class Gen(object):
                     elif r.random() < 0.2 and fm["sched"] in ("active", "inactive"):
                         tg = ["me"]
                     per = r.choice([None, None, 0.0, prog["tick"], 2 * prog["tick"], 0.3]) if self.f("period") else None
-                    fr[r.choice(["enacts", "reacts", "exacts"])].append(["bid", ctl, tg, per])
+                    key = r.choice(["enacts", "reacts", "exacts"])
+                    fr[key].append(["rec", self.newtag()])      # announces the bid to the observer
+                    fr[key].append(["bid", ctl, tg, per])
                 # fiats on slaves
                 if slaves and fm["sched"] in ("active", "inactive") and r.random() < 0.3:
                     fr[r.choice(["enacts", "reacts", "exacts"])].append(
@@ -720,3 +726,84 @@ def correspond(ctx, nprog, features=None, ticks=(0.125,), sizes=(2, 4), crash="n
 def json_dumps(x):
     import json
     return json.dumps(x, default=str)[:6000]
+
+
+# ---------------------------------------------------------------------------
+# directed scenario programs: situations the random generator reaches only rarely
+# ---------------------------------------------------------------------------
+def _fr(name, over=None, **kw):
+    d = {"name": name, "over": over, "under": None, "beacts": [], "enacts": [], "renacts": [], "preacts": [],
+         "reacts": [], "exacts": [], "rexacts": [], "auxes": []}
+    d.update(kw)
+    return d
+
+
+def _tagged(prog):
+    """give every frame a recorder first in enter / recur / exit (and renter / rexit) contexts"""
+    tag = [1000]
+
+    def nt():
+        tag[0] += 1
+        return tag[0]
+    for fm in prog["framers"]:
+        for fr in fm["frames"]:
+            for key in ("enacts", "renacts", "reacts", "exacts", "rexacts"):
+                fr[key] = [["rec", nt()]] + fr[key]
+    return prog
+
+
+def scenarios(tick=0.125):
+    out = []
+    # S1: transitions between leaves with TWO shared ancestors carrying re-exit / re-enter actions
+    out.append(("renter-order", _tagged({"tick": tick, "nvars": 1, "framers": [
+        {"name": "m0", "sched": "active", "order": "mid", "period": 0.0, "first": "a", "frames": [
+            _fr("top"), _fr("mid", "top"),
+            _fr("a", "mid", preacts=[["go", [["recurred", ">=", 1]], "b"]]),
+            _fr("b", "mid", preacts=[["go", [["recurred", ">=", 1]], "a"]])]}]})))
+    # S2: conditional aux completes LATER while the active frame sits under a NON-primary child of its main
+    out.append(("suspend-nonprimary", _tagged({"tick": tick, "nvars": 1, "framers": [
+        {"name": "m0", "sched": "active", "order": "mid", "period": 0.0, "first": "c2", "frames": [
+            _fr("f0", preacts=[["aux", [["var", 0, ">=", 1]], "a1"]]),
+            _fr("c1", "f0"), _fr("c2", "f0", enacts=[["put", 0, 1]])]},
+        {"name": "a1", "sched": "aux", "order": "mid", "period": 0.0, "first": "x", "frames": [
+            _fr("x", preacts=[["go", [["recurred", ">=", 2]], "y"]]),
+            _fr("y", enacts=[["done", ["me"]]])]}]})))
+    # S3: forced re-entry of the active frame and of an ancestor restarts the clocks
+    out.append(("forced-reentry", _tagged({"tick": tick, "nvars": 1, "framers": [
+        {"name": "m0", "sched": "active", "order": "mid", "period": 0.0, "first": "b", "frames": [
+            _fr("t", preacts=[["go", [["elapsed", ">=", 5 * tick]], "t"]]),
+            _fr("b", "t", preacts=[["go", [["elapsed", ">=", 2 * tick]], "b"]])]}]})))
+    # S4: a framer bids on itself while it is being started
+    out.append(("bid-me-at-start", _tagged({"tick": tick, "nvars": 1, "framers": [
+        {"name": "m0", "sched": "active", "order": "mid", "period": 0.0, "first": "f0", "frames": [
+            _fr("f0", enacts=[["rec", 901], ["bid", "stop", ["me"], None]])]},
+        {"name": "m1", "sched": "active", "order": "mid", "period": 0.0, "first": "f0", "frames": [
+            _fr("f0", preacts=[["go", [["recurred", ">=", 4]], "f1"]]),
+            _fr("f1", enacts=[["rec", 902], ["bid", "stop", ["all"], None]])]}]})))
+    # S5: a framer is aborted / stopped in the tick right after it started (status STARTED, never RUNNING)
+    for ctl in ("abort", "stop"):
+        out.append(("%s-while-started" % ctl, _tagged({"tick": tick, "nvars": 1, "framers": [
+            {"name": "m0", "sched": "active", "order": "front", "period": 0.0, "first": "f0", "frames": [
+                _fr("f0"), _fr("f1", "f0")]},
+            {"name": "m1", "sched": "active", "order": "back", "period": 0.0, "first": "f0", "frames": [
+                _fr("f0", enacts=[["rec", 903], ["bid", ctl, ["m0"], None]],
+                    preacts=[["go", [["recurred", ">=", 3]], "f1"]]),
+                _fr("f1", enacts=[["rec", 904], ["bid", "stop", ["all"], None]])]}]})))
+    # S6: a plain auxiliary that marked itself done is still exited with its main frame (and re-entered later)
+    out.append(("done-aux-exits-with-main", _tagged({"tick": tick, "nvars": 1, "framers": [
+        {"name": "m0", "sched": "active", "order": "mid", "period": 0.0, "first": "f0", "frames": [
+            _fr("f0", auxes=["a1"], preacts=[["go", [["recurred", ">=", 1]], "f1"]]),
+            _fr("f1", preacts=[["go", [["recurred", ">=", 1]], "f0"]])]},
+        {"name": "a1", "sched": "aux", "order": "mid", "period": 0.0, "first": "x", "frames": [
+            _fr("x", enacts=[["done", ["me"]]])]}]})))
+    # S7: conditional aux completes in its first run; one that never completes while main transits away
+    out.append(("condaux-immediate-and-never", _tagged({"tick": tick, "nvars": 2, "framers": [
+        {"name": "m0", "sched": "active", "order": "mid", "period": 0.0, "first": "g", "frames": [
+            _fr("f0", preacts=[["aux", [["var", 0, ">=", 0]], "a1"], ["go", [["recurred", ">=", 3]], "h"]]),
+            _fr("g", "f0"),
+            _fr("h", preacts=[["aux", [["var", 0, ">=", 0]], "a2"]]), _fr("k", "h")]},
+        {"name": "a1", "sched": "aux", "order": "mid", "period": 0.0, "first": "x", "frames": [
+            _fr("x", enacts=[["done", ["me"]]])]},
+        {"name": "a2", "sched": "aux", "order": "mid", "period": 0.0, "first": "x", "frames": [
+            _fr("x")]}]})))
+    return out
